@@ -143,9 +143,17 @@ func genC15Reuse(rt *rapid.T) *reuseCase {
 	return c
 }
 
-func TestC15GrpcReuse(t *testing.T) {
-	const unit = "TestC15GrpcReuse"
-	rec := stats.New(t, "C15", unit)
+func TestC15GrpcReuse(t *testing.T) { reuseUnit(t, "C15", "TestC15GrpcReuse") }
+
+// TestC02SessionReuse: the same histories seen from C02's side: what a reader
+// is handed after a handshake is a prefix of what the authentic peer wrote
+// under THAT handshake's keys; plaintext of an earlier session of the same
+// NoiseGrpcConn object is "replayed data returned as valid" without any help
+// from the relay.
+func TestC02SessionReuse(t *testing.T) { reuseUnit(t, "C02", "TestC02SessionReuse") }
+
+func reuseUnit(t *testing.T, prop, unit string) {
+	rec := stats.New(t, prop, unit)
 	var rc reuseCase
 	if stats.ReplayCase(unit, &rc) {
 		if v, _ := runC15Reuse(&rc); v != "" {
